@@ -104,6 +104,10 @@ pub struct BuilderPath {
     pub batch_paths: bool,
     /// construct with another backend first and swap with `with_backend`
     pub swap_backend: bool,
+    /// (with swap_backend) swap as LATE as the builder allows: after the output mode and the
+    /// sources have been set, right before `compile()`
+    #[serde(default)]
+    pub swap_late: bool,
 }
 
 #[derive(Clone, Debug, Serialize, Deserialize, PartialEq, Default)]
@@ -345,22 +349,20 @@ fn to_string_with<B: Backend>(
     }
 }
 
-fn compile_with<B: Backend>(
+fn ready_with<B: Backend>(
     c: Compiler<B, CompilerMissingParams>,
     srcs: &[Src],
     out: &OutSel,
     bp: &BuilderPath,
-) -> Result<Vec<CompilerError>, CompilerError> {
-    if bp.output_first {
-        add_sources_ready(c.set_output_mode(out_mode(out)), srcs, bp)
-            .expect("no sources")
-            .compile()
+    between: &dyn Fn(),
+) -> Compiler<B, CompilerReady> {
+    let ready = if bp.output_first {
+        add_sources_ready(c.set_output_mode(out_mode(out)), srcs, bp).expect("no sources")
     } else {
-        add_sources(c, srcs, bp)
-            .expect("no sources")
-            .set_output_mode(out_mode(out))
-            .compile()
-    }
+        add_sources(c, srcs, bp).expect("no sources").set_output_mode(out_mode(out))
+    };
+    between();
+    ready
 }
 
 /// Render every returned error or warning the way a user would: Display and
@@ -439,23 +441,37 @@ pub fn compile_to_string_render_gated(
 
 /// `compile()`: returns Ok(warnings) / Err; `generated` stays empty (it went to the destination)
 pub fn compile(backend: &BackendSel, srcs: &[Src], out: &OutSel, bp: &BuilderPath) -> CompileOut {
+    compile_between(backend, srcs, out, bp, &|| {})
+}
+
+/// `compile()`, with `between` called after the builder is complete (output mode and sources set)
+/// and before `compile()` itself: the moment at which the outside world may still change
+pub fn compile_between(backend: &BackendSel, srcs: &[Src], out: &OutSel, bp: &BuilderPath, between: &dyn Fn()) -> CompileOut {
     let r = catch_unwind(AssertUnwindSafe(|| {
         let res = match backend {
             BackendSel::Rasn(cfg) => {
-                if bp.swap_backend {
+                if bp.swap_backend && bp.swap_late {
+                    ready_with(Compiler::<TypescriptBackend, _>::new(), srcs, out, bp, between)
+                        .with_backend(RasnBackend::from_config(cfg.to_config()))
+                        .compile()
+                } else if bp.swap_backend {
                     let c = Compiler::<TypescriptBackend, _>::new()
                         .with_backend(RasnBackend::from_config(cfg.to_config()));
-                    compile_with(c, srcs, out, bp)
+                    ready_with(c, srcs, out, bp, between).compile()
                 } else {
-                    compile_with(Compiler::<RasnBackend, _>::new_with_config(cfg.to_config()), srcs, out, bp)
+                    ready_with(Compiler::<RasnBackend, _>::new_with_config(cfg.to_config()), srcs, out, bp, between).compile()
                 }
             }
             BackendSel::Ts => {
-                if bp.swap_backend {
+                if bp.swap_backend && bp.swap_late {
+                    ready_with(Compiler::<RasnBackend, _>::new(), srcs, out, bp, between)
+                        .with_backend(TypescriptBackend::default())
+                        .compile()
+                } else if bp.swap_backend {
                     let c = Compiler::<RasnBackend, _>::new().with_backend(TypescriptBackend::default());
-                    compile_with(c, srcs, out, bp)
+                    ready_with(c, srcs, out, bp, between).compile()
                 } else {
-                    compile_with(Compiler::<TypescriptBackend, _>::new(), srcs, out, bp)
+                    ready_with(Compiler::<TypescriptBackend, _>::new(), srcs, out, bp, between).compile()
                 }
             }
         };
